@@ -174,6 +174,7 @@ func wait(kind string, cases []Case, hasDefault bool) (int, any, bool) {
 		if r, idx := partner(st, false, me); r != nil && len(st.q) == 0 {
 			r.Sel = sched.SelResult{Index: idx, Val: c.val, OK: true}
 			r.Pend().Completed = true
+			sched.Absorb(r)
 			sched.Touch(&st.obj, 11)
 			r.Pend().Obj = &st.obj
 		} else {
@@ -193,6 +194,7 @@ func wait(kind string, cases []Case, hasDefault bool) (int, any, bool) {
 		v := sw.cases[idx].val
 		s.Sel = sched.SelResult{Index: idx}
 		s.Pend().Completed = true
+		sched.Absorb(s)
 		sched.Touch(&st.obj, 14)
 		s.Pend().Obj = &st.obj
 		return k, v, true
